@@ -289,7 +289,8 @@ def oracle_comb(case) -> Result:
 # ----------------------------------------------------------------------------------------
 @st.composite
 def mps_model_cases(draw):
-    spec = draw(ng.netspecs(mu.profile()))
+    fam = draw(st.sampled_from(['2d', '2d', '2d', '1d']))
+    spec = draw(ng.netspecs(mu.profile(family=fam)))
     return {'spec': spec, 'per_channel': draw(st.booleans()),
             'w_prec': draw(mu.precisions), 'a_prec': draw(mu.precisions),
             'wseed': draw(st.integers(0, 20)),
@@ -343,7 +344,15 @@ def oracle_mps_model(case) -> Result:
     # reported == arg-max of raw coefficients == exported
     summ = mps.summary()
     per_layer = not case['per_channel']
-    exported = must(res, 'export', mps.export) if per_layer else None
+    # a depthwise layer whose channels selected different precisions (known finding, see below)
+    dw_mixed = [f"layers.{n['id']}" for n in spec['nodes'] if ng.is_dw(n) and isinstance(
+        summ.get(f"layers.{n['id']}", {}).get('w_precision'), list) and len(set(
+            summ[f"layers.{n['id']}"]['w_precision'])) > 1]
+    n_before = len(res.discrepancies)
+    exported = must(res, 'export', mps.export)
+    for d in res.discrepancies[n_before:]:
+        d['depthwise_layers_with_mixed_precisions'] = dw_mixed
+        d['per_channel'] = case['per_channel']
     nonini = False
     for name, s in summ.items():
         m = mps.seed.get_submodule(name)
@@ -363,12 +372,28 @@ def oracle_mps_model(case) -> Result:
             if len(case['w_prec']) > 1 and want_w != max(case['w_prec']) and \
                     want_w != [max(case['w_prec'])] * (len(want_w) if isinstance(want_w, list) else 1):
                 nonini = True
-            if exported is not None:
+            if exported is not None and per_layer:
                 em = exported.get_submodule(name)
                 got = (int(em.w_quantizer.precision), int(em.out_quantizer.precision))
                 if got != (want_w, want_out):
                     res.bad('exported-precision-not-argmax', layer=name, exported=list(got),
                             argmax=[want_w, want_out])
+            elif exported is not None:
+                # per-channel: one sub-layer per selected precision, holding exactly the channels
+                # whose arg-max is that precision
+                em = exported.get_submodule(name)
+                subs = list(em) if hasattr(em, '__iter__') else [em]
+                got = sorted((int(l.w_quantizer.precision),
+                              int(getattr(l, 'out_channels', getattr(l, 'out_features', -1))))
+                             for l in subs)
+                want = sorted((p, want_w.count(p)) for p in set(want_w))
+                if got != want:
+                    res.bad('exported-per-channel-groups-not-argmax', layer=name,
+                            exported=[list(g) for g in got], argmax=[list(w) for w in want])
+                outs = {int(l.out_quantizer.precision) for l in subs}
+                if outs != {want_out}:
+                    res.bad('exported-precision-not-argmax', layer=name, exported=sorted(outs),
+                            argmax=[want_out])
     res.nontrivial = moved and nonini
     res.ev('per-channel' if case['per_channel'] else 'per-layer')
     res.ev(*{f"opt:{n}" for o, a in case['ops'] if o == 'opt' for n, _ in _pairs(a)})
@@ -451,6 +476,20 @@ def oracle_sn_model(case) -> Result:
     return res
 
 
+def c10_dw_perchannel_export(part, case, disc) -> bool:
+    """Known finding D31: per-channel export builds one sub-convolution per selected precision
+    with `groups` copied from the searched layer; for a depthwise layer whose channels selected
+    DIFFERENT precisions each group has fewer channels than `groups` and nn.ConvNd refuses it."""
+    if part != 'mps-model' or not disc.get('per_channel'):
+        return False
+    k = disc.get('kind', '')
+    if not (k.startswith('export:raised:ValueError@plinio/methods/mps/nn/conv') and
+            k.endswith(':export')):
+        return False
+    return bool(disc.get('depthwise_layers_with_mixed_precisions')) and \
+        'divisible by groups' in disc.get('message', '')
+
+
 CHECK = Check(
     prop='C10',
     parts=[
@@ -476,7 +515,10 @@ CHECK = Check(
           "model of the option state prescribes after every forward whether the sampled "
           "coefficients must be the one-hot at the arg-max, any one-hot, exactly the tempered "
           "softmax (recomputed in float64), a Gumbel-perturbed probability vector or bit-equal to "
-          "the previous sample. Non-trivial = coefficients were moved and the arg-max is not the "
+          "the previous sample; at the end summary() and export() (per-layer: the layer's weight / "
+          "output precision; per-channel: one sub-layer per selected precision holding exactly the "
+          "channels whose arg-max it is) are compared with the arg-max of the raw coefficients. "
+          "MPS models: 2-D and (1 in 4) 1-D networks. Non-trivial = coefficients were moved and the arg-max is not the "
           "construction-time one; distinct by case hash."),
     assumptions=[
         "SuperNet in eval mode without `hard` stays a soft mixture by design (a baseline test "
@@ -485,4 +527,5 @@ CHECK = Check(
         "Gumbel sampling is recognised by NOT coinciding with the noise-free softmax (probability "
         "of a false alarm ~0; skipped for temperature >= 19 where noise is flattened)",
     ],
+    classifiers={'c10_dw_perchannel_export': c10_dw_perchannel_export},
 )
